@@ -202,6 +202,25 @@ def discharge(ctx, site):
     if n is None:
         return None
     what = site["what"]
+    if site["kind"] == "call" and what.endswith(("core::panicking::panic_fmt", "core::panicking::panic")):
+        # G6 (parser invariant, wherever the match lives): `unreachable!` in the arm `JSXAttrValue::Lit(..)` that follows the arm
+        # `JSXAttrValue::Lit(Lit::Str(..))` of the same match — swc_ecma_parser only produces Lit::Str for an attribute value literal
+        x = n
+        while x is not None:
+            par = idx.parent.get(id(x))
+            if par is not None and par.get("k") == "Match":
+                arms = par["arms"]
+                mine = [i for i, a_ in enumerate(arms) if a_ is x or any(y is n for y in walk(a_["body"]))]
+                if mine:
+                    i = mine[0]
+                    def is_attr_lit(p_):
+                        return p_.get("k") == "PTupleStruct" and p_.get("adt") == AST + "JSXAttrValue" and p_.get("variant") == "Lit"
+                    if is_attr_lit(arms[i]["pat"]) and not any(y.get("adt") == AST + "Lit" for y in walk(arms[i]["pat"])) \
+                            and any(is_attr_lit(a_["pat"]) and any(y.get("adt") == AST + "Lit" and y.get("variant") == "Str" for y in walk(a_["pat"])) and not a_.get("guard")
+                                    for a_ in arms[:i]):
+                        return ("G6", "unreachable!() in the arm JSXAttrValue::Lit(<not Str>) after the arm JSXAttrValue::Lit(Lit::Str(..)): the parser only produces Lit::Str for an attribute value literal")
+                break
+            x = par
     if site["kind"] == "assert" and what == "Overflow(Add)" and n.get("k") == "Binary" and n.get("op") == "+":
         k = _lit_int(n["r"])
         lo = local_of(n["l"])
